@@ -5,6 +5,7 @@ import (
 	"fmt"
 	"io"
 	"os"
+	"path"
 	"path/filepath"
 	"strings"
 
@@ -13,6 +14,27 @@ import (
 )
 
 var emptyPrefix = &gofakes3.Prefix{}
+
+// removeEmptyDirs removes dir and then each of its parents for as long as they
+// are empty, stopping at (and never removing) root. Both are slash-separated
+// paths inside fs. Errors are ignored: leaving a directory behind is harmless.
+func removeEmptyDirs(fs afero.Fs, dir, root string) {
+	root = path.Clean(root)
+	for dir = path.Clean(dir); dir != root && dir != "." && dir != "/"; dir = path.Dir(dir) {
+		if root != "." && !strings.HasPrefix(dir, root+"/") {
+			return
+		}
+		// afero.Fs implementations are not required to refuse to remove a
+		// directory that still has entries, so check first:
+		entries, err := afero.ReadDir(fs, filepath.FromSlash(dir))
+		if err != nil || len(entries) > 0 {
+			return
+		}
+		if err := fs.Remove(filepath.FromSlash(dir)); err != nil {
+			return
+		}
+	}
+}
 
 type readerWithCloser struct {
 	io.Reader
